@@ -195,7 +195,7 @@ func checkImportAliases(c *Ctx, r *Report) {
 	}
 	info := fi.Pkg.TypesInfo
 	lits := map[string]*ast.CallExpr{}
-	ast.Inspect(fi.Decl, func(n ast.Node) bool {
+	w.inspectRegion(fi, func(n ast.Node) bool {
 		if cl, ok := n.(*ast.CallExpr); ok && calleeOfCall(info, cl) == "fmt.Sprintf" && len(cl.Args) == 3 {
 			lits[litString(cl.Args[0])] = cl
 		}
@@ -253,7 +253,7 @@ func checkImportAliases(c *Ctx, r *Report) {
 	// reader: helper literal
 	if hfi := w.fn("generator/routes.registerHandlebarsHelpers"); hfi != nil {
 		found := false
-		ast.Inspect(hfi.Decl, func(n ast.Node) bool {
+		w.inspectRegion(hfi, func(n ast.Node) bool {
 			if cl, ok := n.(*ast.CallExpr); ok && calleeOfCall(hfi.Pkg.TypesInfo, cl) == "fmt.Sprintf" && len(cl.Args) >= 3 {
 				if l := litString(cl.Args[0]); strings.HasPrefix(l, "Response") {
 					sites = append(sites, w.pos(cl.Pos()))
@@ -279,7 +279,7 @@ func checkImportAliases(c *Ctx, r *Report) {
 	if gfi := need(c, r, "C09.c", "(*core/pipeline.GleecePipeline).getImports"); gfi != nil {
 		viol := "getImports does not register the controller's name as import alias of its package"
 		var s2 []string
-		ast.Inspect(gfi.Decl, func(n ast.Node) bool {
+		w.inspectRegion(gfi, func(n ast.Node) bool {
 			cl, ok := n.(*ast.CallExpr)
 			if !ok || !strings.HasSuffix(calleeOfCall(gfi.Pkg.TypesInfo, cl), ").Add") || len(cl.Args) != 1 {
 				return true
@@ -481,7 +481,7 @@ func checkIterableOnlyInQuery(c *Ctx, r *Report) {
 	}
 	viol := "no `if param.Type.IsIterable() && passedIn != PassedInQuery ... { return &diag }` guard found"
 	var sites []string
-	ast.Inspect(fi.Decl, func(n ast.Node) bool {
+	w.inspectRegion(fi, func(n ast.Node) bool {
 		is, ok := n.(*ast.IfStmt)
 		if !ok {
 			return true
